@@ -88,7 +88,17 @@ func (c *Ctx) cryptoChainOf(fn *ssa.Function, op string) *cryptoChain {
 
 // encodingGlobal returns the name of the *base64.Encoding global used as receiver.
 func encodingGlobal(v ssa.Value) string {
+	// E.Strict() is the same alphabet and padding as E (only malformed input is refused)
+	if call, ok := v.(*ssa.Call); ok && calleeKey(&call.Call) == "(encoding/base64.Encoding).Strict" && len(call.Call.Args) > 0 {
+		if ld, ok := call.Call.Args[0].(*ssa.UnOp); ok {
+			return encodingGlobal(ld.X)
+		}
+		return encodingGlobal(call.Call.Args[0])
+	}
 	if u, ok := v.(*ssa.UnOp); ok {
+		if inner, ok := u.X.(*ssa.UnOp); ok {
+			return encodingGlobal(inner)
+		}
 		if g, ok := u.X.(*ssa.Global); ok {
 			return g.Pkg.Pkg.Path() + "." + g.Name()
 		}
@@ -256,6 +266,46 @@ func ruleC09(c *Ctx, r *Report) {
 			}
 		}
 		r.Check(okDec, "C09-R2", dc.Name()+":ciphertext-decoding", c.InstrPos(ds), detail, detail)
+		// ... and the decoding is strict: encoding/base64 otherwise ignores the unused trailing
+		// bits of the last quantum and skips CR / LF, so several texts decode to one ciphertext
+		// and an altered text is accepted instead of refused
+		if ex, ok := ds.Call.Args[0].(*ssa.Extract); ok {
+			if dcall, ok := ex.Tuple.(*ssa.Call); ok && calleeKey(&dcall.Call) == "(*encoding/base64.Encoding).DecodeString" {
+				strict := false
+				var visit func(v ssa.Value, depth int)
+				visit = func(v ssa.Value, depth int) {
+					if depth > 4 || v == nil {
+						return
+					}
+					switch x := v.(type) {
+					case *ssa.Call:
+						if calleeKey(&x.Call) == "(encoding/base64.Encoding).Strict" {
+							strict = true
+						}
+					case *ssa.Alloc:
+						for _, rr := range referrers(x) {
+							if st, ok := rr.(*ssa.Store); ok && st.Addr == ssa.Value(x) {
+								visit(st.Val, depth+1)
+							}
+						}
+					case *ssa.UnOp:
+						visit(x.X, depth+1)
+					}
+				}
+				visit(dcall.Call.Args[0], 0)
+				noNewlines := false
+				for _, f := range allFacts(dcall.Block()) {
+					if cc, ok := f.Cond.(*ssa.Call); ok && !f.Pol && calleeKey(&cc.Call) == "strings.ContainsAny" && cc.Call.Args[0] == dcall.Call.Args[1] {
+						if set, ok := constString(cc.Call.Args[1]); ok && strings.Contains(set, "\r") && strings.Contains(set, "\n") {
+							noNewlines = true
+						}
+					}
+				}
+				r.Check(strict && noNewlines, "C09-R2", dc.Name()+":ciphertext-decoding-is-strict", c.InstrPos(dcall),
+					"the ciphertext text is decoded strictly (no ignored trailing bits) after CR / LF have been refused: one text per ciphertext",
+					fmt.Sprintf("lenient base64 decoding (strict=%v, CR/LF refused=%v): a ciphertext text altered in its last character or by an inserted line break is accepted and decrypts, instead of failing", strict, noNewlines))
+			}
+		}
 		// plaintext out: only string(pt), optionally concatenated with constants, printed
 		pt := extractOf(ds, 0)
 		okOut := pt != nil
